@@ -555,13 +555,14 @@ def _twin_one_batch(scn, traces, data, accepted):
 
 
 def _twin_same_calls(scn, traces, data, accepted):
-    """Fresh object that received only the accepted calls, one by one (C16 twin)."""
+    """Fresh object that received only the accepted calls, one by one (C16 twin), under the same
+    clock script (so the kernel schedule is the subject's and C16 does not depend on C11)."""
     import numba
     tw = _mk(scn)
     saved = numba.get_num_threads()
     numba.set_num_threads(1)
     try:
-        with env.clock(env.SimClock()), env.memory(env.SimMemory()):
+        with env.clock(env.SimClock(scn.get('clock', {}).get('durs', ()))), env.memory(env.SimMemory()):
             for a, b in accepted:
                 tw.update(traces[a:b], data[a:b])
             return tw, tw.compute()
@@ -640,7 +641,7 @@ def _execute_history(scn):
                         bads = [o for o in scn['ops'][:i] if o[0] == 'bad']
                         if bads:
                             oracle = 'valid_call_rejected_after_refusal'
-                            sig = [prop, oracle, kind, bads[-1][1], 'first' if not accepted else 'later']
+                            sig = [prop, oracle, kind, '+'.join(sorted(set(o[1] for o in bads))), 'first' if not accepted else 'later']
                         else:
                             oracle = 'valid_call_rejected'
                             sig = [prop, oracle, kind, type(e).__name__]
